@@ -792,10 +792,18 @@ class _NotUnderstood(Exception):
 _STR_METHODS = {'startswith', 'endswith', 'find', 'rfind', 'count', 'lower', 'upper', 'strip', 'lstrip', 'rstrip', 'isdigit', 'isidentifier', 'replace'}
 
 
+_NODES = ('nodes',)  # env key: {id(node): value} - sub-expressions whose value is given rather than computed
+
+
 def _cev(e, env):
     """concrete value of a predicate over one attribute name (strings / ints / bools only)"""
+    given = env.get(_NODES)
+    if given and id(e) in given:
+        return given[id(e)]
     if isinstance(e, ast.Constant):
         return e.value
+    if isinstance(e, ast.IfExp):
+        return _cev(e.body, env) if _cev(e.test, env) else _cev(e.orelse, env)
     if isinstance(e, ast.Name):
         if e.id in env:
             return env[e.id]
@@ -910,6 +918,29 @@ def _seq(prog, f, e, depth=0):
     raise _NotUnderstood(norm(e))
 
 
+def _loop_body(stmts, env, out):
+    """one iteration of a generator loop of _get_rules, executed for one concrete name: every test is evaluated and the
+    arm it selects is followed (so `if c: yield k`, `if not c: continue` ... and their negated / swapped spellings are the
+    same thing); -> 'continue' | 'break' | None (fell through)"""
+    for b in stmts:
+        if isinstance(b, ast.Pass) or (isinstance(b, ast.Expr) and isinstance(b.value, ast.Constant)):
+            continue
+        if isinstance(b, ast.Continue):
+            return 'continue'
+        if isinstance(b, ast.Break):
+            return 'break'
+        if isinstance(b, ast.If):
+            how = _loop_body(b.body if _cev(b.test, env) else b.orelse, env, out)
+            if how:
+                return how
+            continue
+        if isinstance(b, ast.Expr) and isinstance(b.value, ast.Yield) and b.value.value is not None:
+            out.append(_cev(b.value.value, env))
+            continue
+        raise _NotUnderstood(norm(b)[:80])
+    return None
+
+
 def _enumerated_rules(prog, f):
     """names yielded / returned by _get_rules, evaluated over the static attribute list of its module"""
     out = []
@@ -931,19 +962,8 @@ def _enumerated_rules(prog, f):
             continue
         if isinstance(s, ast.For) and isinstance(s.target, ast.Name) and not s.orelse:
             for x in _seq(prog, f, s.iter):
-                env = {s.target.id: x}
-                for b in s.body:
-                    if isinstance(b, ast.Pass):
-                        continue
-                    conds, inner = [], [b]
-                    while len(inner) == 1 and isinstance(inner[0], ast.If) and not inner[0].orelse:
-                        conds.append(inner[0].test)
-                        inner = inner[0].body
-                    if len(inner) == 1 and isinstance(inner[0], ast.Expr) and isinstance(inner[0].value, ast.Yield) and inner[0].value.value is not None:
-                        if all(_cev(c, env) for c in conds):
-                            out.append(_cev(inner[0].value.value, env))
-                    else:
-                        raise _NotUnderstood(norm(b)[:80])
+                if _loop_body(s.body, {s.target.id: x}, out) == 'break':
+                    break
             found = True
             continue
         raise _NotUnderstood(norm(s)[:80])
@@ -1436,15 +1456,32 @@ def _enum_members(prog, q):
     return [t.id for s in c.node.body if isinstance(s, ast.Assign) for t in s.targets if isinstance(t, ast.Name)]
 
 
-def _main_block(m):
-    for s in m.tree.body:
-        if isinstance(s, ast.If) and isinstance(s.test, ast.Compare) and len(s.test.ops) == 1 and isinstance(s.test.ops[0], ast.Eq):
-            pair = [s.test.left, s.test.comparators[0]]
-            if any(isinstance(x, ast.Name) and x.id == '__name__' for x in pair) and any(
-                isinstance(x, ast.Constant) and x.value == '__main__' for x in pair
-            ):
-                return s
-    return None
+def _as_main(e):
+    """truth of a test when the module runs as the script (__name__ == '__main__'); None when it does not depend on that
+
+    Decided by evaluating the test (any orientation, ==, !=, in, not in, negations ...) with the value of __name__."""
+    if not any(isinstance(n, ast.Name) and n.id == '__name__' for n in ast.walk(e)):
+        return None
+    try:
+        return bool(_cev(e, {'__name__': '__main__'}))
+    except (_NotUnderstood, TypeError, ValueError, IndexError, KeyError):
+        return None
+
+
+class _Entry(_Carry):
+    """the module body as `python -m <module>` executes it: a test on __name__ takes the arm of __name__ == '__main__',
+    whichever arm that is and however the comparison is written"""
+
+    def __init__(self, prog, module, source):
+        super().__init__(prog, module, None, source)
+        self.decided = []  # tests decided by __name__, with the outcome
+
+    def on_test(self, e, st):
+        v = _as_main(e)
+        if v is None:
+            return super().on_test(e, st)
+        self.decided.append((e, v))
+        return ((st,), ()) if v else ((), (st,))
 
 
 def _called(st):
@@ -1553,12 +1590,15 @@ def _rule2(ctx, rep):
         )
         # ---- (d) exit status
         r.instance()
-        blk = _main_block(m)
-        if blk is None:
+        # the main part is what the module body executes when __name__ == '__main__' holds: the whole body is followed
+        # with every test on __name__ decided by that assumption (either arm, any spelling of the comparison)
+        ef = _Entry(prog, m, MOD + '.main')
+        out = ef.block(m.tree.body, {(None, frozenset())})
+        r.extra['tests_on___name__'] = sorted({f'{norm(e)} -> {v}' for e, v in ef.decided})
+        if not ef.decided:
             r.fail(f'{MOD}:__main__', mwhere(m, m.tree), 'no `if __name__ == "__main__"` block: python -m dawgie.tools.compliant exits 0 whatever the verdict')
         else:
-            ef = _Carry(prog, m, None, MOD + '.main')
-            out = ef.block(blk.body, {(None, frozenset())})
+            blk = ef.decided[0][0]
             events = [(n, st, ef_code) for n, st, ef_code in ef.exits] + [(None, st, None) for st in out.normal]
             bad, seen = [], 0
             for n, st, code in events:
@@ -1615,17 +1655,39 @@ def _rule2(ctx, rep):
         rets = [n for n in sp.own_nodes() if isinstance(n, ast.Return)]
 
         def status_is_zero(e):
-            def proc(x):
-                if isinstance(x, ast.Attribute) and x.attr == 'returncode':
-                    x = x.value
-                return isinstance(x, ast.Call) and prog.resolve_in(x.func, sp) in ('external:subprocess.call', 'external:subprocess.run')
-            if isinstance(e, ast.Compare) and len(e.ops) == 1 and isinstance(e.ops[0], ast.Eq):
-                a, b = e.left, e.comparators[0]
-                return (proc(a) and isinstance(b, ast.Constant) and b.value == 0 and b.value is not False) or (
-                    proc(b) and isinstance(a, ast.Constant) and a.value == 0 and a.value is not False)
-            if isinstance(e, ast.UnaryOp) and isinstance(e.op, ast.Not):
-                return proc(e.operand)
-            return False
+            """the value is truthy exactly when the exit status of the spawned command is 0: the expression is evaluated
+            for concrete statuses (0, both sides of every integer it mentions, a signal), so `call() == 0`, `0 == call()`,
+            `not call()`, `not call() != 0`, `False if call() else True` ... are all the same thing"""
+            if e is None:
+                return False
+
+            def spawned(x):
+                if isinstance(x, ast.Attribute) and x.attr == 'returncode':  # subprocess.run(...).returncode
+                    return isinstance(x.value, ast.Call) and prog.resolve_in(x.value.func, sp) == 'external:subprocess.run'
+                if isinstance(x, ast.Call):  # subprocess.call(...) is the status itself
+                    return prog.resolve_in(x.func, sp) == 'external:subprocess.call'
+                if isinstance(x, ast.Name) and isinstance(x.ctx, ast.Load):  # a local bound once, to the status
+                    stores = [
+                        n for n in sp.own_nodes() if isinstance(n, ast.Name) and not isinstance(n.ctx, ast.Load) and n.id == x.id
+                    ]
+                    vals = [
+                        n.value for n in sp.own_nodes()
+                        if isinstance(n, ast.Assign) and len(n.targets) == 1 and any(n.targets[0] is t for t in stores)
+                    ]
+                    return len(stores) == 1 and len(vals) == 1 and not isinstance(vals[0], ast.Name) and spawned(vals[0])
+                return False
+
+            sites = [x for x in ast.walk(e) if spawned(x)]
+            if len(sites) != 1:
+                return False
+            points = {0, 1, -1, 2, 255, -9}
+            for c in ast.walk(e):
+                if isinstance(c, ast.Constant) and isinstance(c.value, int) and not isinstance(c.value, bool):
+                    points |= {c.value - 1, c.value, c.value + 1, -c.value - 1, -c.value, -c.value + 1}
+            try:
+                return all(bool(_cev(e, {_NODES: {id(sites[0]): v}})) == (v == 0) for v in sorted(points))
+            except (_NotUnderstood, TypeError, ValueError, IndexError, KeyError):
+                return False
 
         r.check(
             bool(rets) and all(status_is_zero(n.value) for n in rets), f'{sp.qname}:status-zero-is-true', where(sp),
@@ -2017,7 +2079,15 @@ VARIANTS = [
     V('finally block resets the ops branch', 'B', _S, 'automatic', "finally: git_execute(g, f'git checkout {ops}')", "finally:\n        git_execute(g, f'git checkout -B {ops}')", 'R-C16-2'),
     V('task branch also taken for regressions', 'B', _C, '_walk', 'elif e == dawgie.Factories.task:', 'elif e in (dawgie.Factories.task, dawgie.Factories.regress):', 'R-C16-3'),
     V('no exit status when the verdict is False', 'B', _C, None, 'if PASSED: sys.exit(0) else: sys.exit(-1)', 'if PASSED:\n        sys.exit(0)', 'R-C16-2'),
+    V('main part moved under the import arm of the __name__ test', 'B', _C, None, "if __name__ == '__main__':", "if __name__ != '__main__':", 'R-C16-2'),
+    V('_spawn is true for every status that is not a signal', 'B', _S, '_spawn', 'return subprocess.call(cmd) == 0', 'return 0 <= subprocess.call(cmd)', 'R-C16-2'),
+    V('rule loop keeps what it should skip', 'B', _C, '_get_rules', "yield from filter( lambda k: k.startswith('rule_'), sorted(dir(dawgie.tools.compliant)) )", "for k in sorted(dir(dawgie.tools.compliant)):\n        if k.startswith('rule_'):\n            continue\n        else:\n            yield k", 'R-C16-2'),
     # ---- benign
+    V('__name__ test negated and mirrored', 'N', _C, None, "if __name__ == '__main__':", "if not '__main__' != __name__:", None),
+    V('__name__ test by membership', 'N', _C, None, "if __name__ == '__main__':", "if __name__ in ('__main__',):", None),
+    V('_spawn: negated inequality, mirrored', 'N', _S, '_spawn', 'return subprocess.call(cmd) == 0', 'return not 0 != subprocess.call(cmd)', None),
+    V('_spawn: status in a local, conditional expression with swapped arms', 'N', _S, '_spawn', 'return subprocess.call(cmd) == 0', 'rc = subprocess.call(cmd)\n    return False if rc else True', None),
+    V('rules listed by a loop that skips the others (else-first)', 'N', _C, '_get_rules', "yield from filter( lambda k: k.startswith('rule_'), sorted(dir(dawgie.tools.compliant)) )", "for k in sorted(dir(dawgie.tools.compliant)):\n        if not k.startswith('rule_'):\n            continue\n        else:\n            yield k", None),
     V('rule call without try (an exception ends the process)', 'N', _C, '_verify', "try: status = getattr(dawgie.tools.compliant, r)(t) except: # noqa: E722 logging.exception('Could not process %s', r)", 'status = getattr(dawgie.tools.compliant, r)(t)', None),
     V('walk branches factored into one helper with the accessor as a parameter', 'N', _C, '_walk', _WALK_LOOP_FIXED, _WALK_LOOP_HELPER, None),
     V('local rename and intermediate list in the analysis branch', 'N', _C, '_walk', 'for sv in a.state_vectors(): ifsv(sv) for i in sv.items(): ifv(i)', 'vectors = list(a.state_vectors())\n                for vec in vectors:\n                    ifsv(vec)\n                    for item in vec.items():\n                        ifv(item)', None),
